@@ -4,7 +4,7 @@
    outside a format's range).  Finding F9c is precisely that the rules are enforced at the top
    level only. *)
 From Coq Require Import List ZArith Bool Lia.
-From TskVerif Require Import Base.Common C12.Model C12.BytesProofs C12.RoundTripProofs C12.ValidProofs.
+From TskVerif Require Import Base.Common C12.Model C12.BytesProofs C12.Unfold C12.ValidProofs.
 Import ListNotations.
 Open Scope Z_scope.
 
@@ -117,17 +117,33 @@ Proof.
       cbn [encode_fields]. fold (encode_fields encode kv). unfold ebind.
       assert (Hrest : no_crash (encode_fields encode kv r))
         by (apply IHq; auto; intros p Hp; apply Hsub; right; auto).
+      assert (Hdflt : forall d, p_default m = Some d ->
+                no_crash (match encode sub d with
+                          | EOk bs => match encode_fields encode kv r with EOk rs => EOk (bs ++ rs) | EErr e => EErr e end
+                          | EErr e => EErr e end)).
+      { intros d Dm. rewrite Dm in Hd. specialize (IH d Hd). destruct (encode sub d) eqn:E; [|exact IH].
+        destruct (encode_fields encode kv r) eqn:Er; [nc|exact Hrest]. }
       destruct (lookup k kv) as [x|] eqn:Lk.
-      - specialize (IH x Hx). destruct (encode sub x) eqn:E; [|exact IH].
-        destruct (encode_fields encode kv r) eqn:Er; [nc|exact Hrest].
+      - specialize (IH x Hx). destruct (encode sub x) as [bx|e] eqn:E.
+        + destruct (encode_fields encode kv r) eqn:Er; [nc|exact Hrest].
+        + destruct e; try exact IH. exfalso. apply (IH EKey eq_refl). left; reflexivity.
       - destruct (p_default m) as [d|] eqn:Dm.
-        + specialize (IH d Hd). destruct (encode sub d) eqn:E; [|exact IH].
-          destruct (encode_fields encode kv r) eqn:Er; [nc|exact Hrest].
+        + apply Hdflt; auto.
         + (* absent, no default: then it is required, and validation saw it missing *)
           exfalso. rewrite orb_false_r in Hreq. apply key_in_spec in Hreq.
           unfold req_of in Hreq. specialize (Hr k). destruct req as [rq|]; [|destruct Hreq].
           specialize (Hr Hreq). rewrite Lk in Hr. discriminate. }
     apply G; auto.
+Qed.
+
+(* hence, for a validated value, the except-KeyError branch of object_encode is never taken *)
+Lemma normal_path s v (dflt : eres (list Z)) :
+  shape_ok s = true -> valid s v = true ->
+  match encode s v with EErr EKey => dflt | r => r end = encode s v.
+Proof.
+  intros Hs Hv. pose proof (valid_protects_encoder s Hs v Hv) as H.
+  destruct (encode s v) as [bs|e]; auto. destruct e; auto.
+  exfalso. apply (H EKey eq_refl). left; reflexivity.
 Qed.
 
 End Shape.
